@@ -289,6 +289,29 @@ func (x *Exec) dumpLoad(op GenOp, lo *LogOp) {
 	if len(hs) > 24 {
 		hs = hs[len(hs)-24:]
 	}
+	// the entries of a dump as they are: the reserved ones carry the highest generation a handle can have, which
+	// the monitor's integers cannot hold - they are compared here and a disagreement is logged as a marker triple
+	if d2 := x.w.Unsafe().DumpEntities(); len(d2.Entities) > 0 {
+		n := len(d2.Entities)
+		if n > 4 {
+			n = 4
+		}
+		for _, h := range d2.Entities[:n] {
+			var j, b ecs.Entity
+			jb, _ := json.Marshal(h)
+			bb, _ := h.MarshalBinary()
+			ab, _ := h.AppendBinary(make([]byte, 3, 16))
+			_ = json.Unmarshal(jb, &j)
+			_ = b.UnmarshalBinary(bb)
+			if j != h || b != h || len(ab) != 11 || string(ab[3:]) != string(bb) {
+				var m0, m1, m2 ecs.Entity
+				_ = json.Unmarshal([]byte(fmt.Sprintf("[%d,0]", h.ID())), &m0)
+				_ = json.Unmarshal([]byte(fmt.Sprintf("[%d,1]", h.ID())), &m1)
+				_ = json.Unmarshal([]byte(fmt.Sprintf("[%d,2]", h.ID())), &m2)
+				lo.Codec = append(lo.Codec, [3]ecs.Entity{m0, m1, m2})
+			}
+		}
+	}
 	// encode all handles first, decode afterwards: encodings must not share storage
 	jbs, bbs := make([][]byte, len(hs)), make([][]byte, len(hs))
 	for i, h := range hs {
@@ -502,7 +525,7 @@ type Config struct {
 	ResP      int      `json:"resp"`      // driver: per-mille probability of a resource operation per step
 	TypedObs  bool     `json:"typedobs"`  // register observers through Observer1..4 where the observed set allows
 	Arity     bool     `json:"arity"`     // driver: draw component sets from the instantiated tuples of all arities
-	GridArity []int    `json:"gridarity"` // coverage-guided targets: prefer the tuples of these arities (top-up runs of C14)
+	GridArity []int    `json:"gridarity,omitempty"` // coverage-guided targets: prefer the tuples of these arities (top-up runs of C14)
 	Grid      int      `json:"grid"`      // percent of driver operations drawn coverage-guided (grid.go)
 	Unbatch   bool     `json:"unbatch"`   // execute batch operations as the single-entity operations they abbreviate (C06)
 	BatchN    int      `json:"batchn"`    // driver: maximum size of NewBatch (default 5)
@@ -536,41 +559,42 @@ type Exec struct {
 	Out *bufio.Writer
 	rng *rand.Rand
 
-	w          *ecs.World
-	ids        map[string]ecs.ID
-	names      map[ecs.ID]string
-	rel        map[string]bool
-	ords       []ecs.Entity
-	issued     []ecs.Entity
-	maps       map[string]TypedMap
-	exs        map[string]TypedExchange
-	filters    map[int]*regFilter
-	pool       map[string]*regFilter
-	obs        map[int]*ecs.Observer
-	tobs       map[int]TypedObserver
-	tsets      [][]string
-	gtargets   []gridTarget
-	gqueue     []GenOp
-	ghits      []int
-	ghitsL     []int // hits of structural targets attempted while the world is locked
-	readRot    int
-	recent     []GenFlt
-	queries    map[int]*openQuery
-	cur        *LogOp
-	opIndex    int
-	hist       []GenOp
-	quiet      bool
-	oldObs     map[int]oldObs
-	obsSpec    map[int]GenObs
-	oldFilters map[int]*regFilter
-	custom     map[string]ecs.EventType
-	res        map[string]resHandle
-	regCount   int
-	baseTypes  int // component types registered when the world was set up
-	seq        int
-	Events     int
-	Panics     int
-	Cover      map[string]int // API variants exercised (C14)
+	w            *ecs.World
+	ids          map[string]ecs.ID
+	names        map[ecs.ID]string
+	rel          map[string]bool
+	ords         []ecs.Entity
+	issued       []ecs.Entity
+	maps         map[string]TypedMap
+	exs          map[string]TypedExchange
+	filters      map[int]*regFilter
+	pool         map[string]*regFilter
+	obs          map[int]*ecs.Observer
+	tobs         map[int]TypedObserver
+	tsets        [][]string
+	gtargets     []gridTarget
+	gqueue       []GenOp
+	ghits        []int
+	ghitsL       []int // hits of structural targets attempted while the world is locked
+	readRot      int
+	recent       []GenFlt
+	queries      map[int]*openQuery
+	cur          *LogOp
+	opIndex      int
+	hist         []GenOp
+	quiet        bool
+	oldObs       map[int]oldObs
+	obsSpec      map[int]GenObs
+	oldFilters   map[int]*regFilter
+	custom       map[string]ecs.EventType
+	res          map[string]resHandle
+	regCount     int
+	filtersBuilt int
+	baseTypes    int // component types registered when the world was set up
+	seq          int
+	Events       int
+	Panics       int
+	Cover        map[string]int // API variants exercised (C14)
 }
 
 func NewExec(cfg Config, out *bufio.Writer) *Exec {
@@ -1244,7 +1268,16 @@ func (x *Exec) buildFilter(with, without []string, excl bool, ft map[string]ecs.
 			rf.tf.Without(wo...)
 		}
 		if len(ft) > 0 {
-			rf.tf.Relations(x.typedRels(rf.ids, ft)...)
+			rels := x.typedRels(rf.ids, ft)
+			x.filtersBuilt++
+			if len(rels) >= 2 && x.filtersBuilt%2 == 0 {
+				// every other filter with several fixed targets gets them in chained calls (they accumulate)
+				for _, r := range rels {
+					rf.tf.Relations(r)
+				}
+			} else {
+				rf.tf.Relations(rels...)
+			}
 		}
 	}
 	return rf, nil
@@ -2100,6 +2133,30 @@ func (x *Exec) probeCatalogue() []GenFlt {
 					b := v
 					b.Ft, b.Qt = FlexMap[int]{}, FlexMap[int]{c: t}
 					out = append(out, b)
+				}
+			}
+			// targets for two relation components at once: fixed + per query, both per query, both fixed
+			rels := []string{}
+			for _, c := range wi {
+				if isRelName(c) {
+					rels = append(rels, c)
+				}
+			}
+			if len(rels) >= 2 {
+				t2 := tgs
+				if len(t2) > 4 {
+					t2 = t2[:4]
+				}
+				for _, ta := range t2 {
+					for _, tb := range t2 {
+						a := v
+						a.Ft, a.Qt = FlexMap[int]{rels[0]: ta}, FlexMap[int]{rels[1]: tb}
+						b := v
+						b.Ft, b.Qt = FlexMap[int]{}, FlexMap[int]{rels[0]: ta, rels[1]: tb}
+						c := v
+						c.Ft, c.Qt = FlexMap[int]{rels[0]: ta, rels[1]: tb}, FlexMap[int]{}
+						out = append(out, a, b, c)
+					}
 				}
 			}
 		}
